@@ -2,6 +2,7 @@ package checks
 
 import (
 	"fmt"
+	"github.com/ericlagergren/decimal"
 	"math"
 	"strings"
 
@@ -39,6 +40,7 @@ func init() {
 		Workers:     1, // one process: a memo keyed too coarsely must meet its colliding pair
 	})
 	c05Cmp = eng.NewKind(c, "cmp", judgeCmp)
+	c05Triple = eng.NewKind(c, "triple", judgeTriple)
 }
 
 var cmpGrid []gval
@@ -116,11 +118,23 @@ func buildCmpGrid() {
 	num("(1e3500 * 1e3500)", "1e7000")
 	num("(1e-3500 * 1e-3500)", "1e-7000")
 	num("(1e7000 / 10)", "1e6999")
+	// leading zeros are insignificant, also when the digits that follow would be octal digits
+	num("010", "10")
+	num("0010.0", "10")
+	num("007", "7")
+	num("0100", "100")
+	num("0777", "777")
+	num("08", "8")
+	num("00.50", "0.5")
+	cmpData["s010"] = "010"
 	num("1", "1")
 	num("10", "10")
 	num("9", "9")
 	num("1e0", "1")
 	cmpGrid = append(cmpGrid, gval{Expr: "(1/0)", Kind: "numx"}, gval{Expr: "(-1/0)", Kind: "numx"})
+	// NaN from several sources: whatever it equals, it does not equal a finite number
+	cmpData["dnan"] = math.NaN()
+	cmpGrid = append(cmpGrid, gval{Expr: "(0/0)", Kind: "numx"}, gval{Expr: "sqrt(-1)", Kind: "numx"}, gval{Expr: "dnan", Kind: "numx"}, gval{Expr: "toFloat('x')", Kind: "numx"}, gval{Expr: "($nn = 0/0)", Kind: "numx"})
 	strs := []string{"", "a", "b", "ab", "a ", "A", "1", "10", "9", "é", "中", "aa", " ", "1.0", "true", "null", "b\x00", "\xff"}
 	for i, s := range strs {
 		name := fmt.Sprintf("s%d", i)
@@ -136,6 +150,13 @@ func buildCmpGrid() {
 	cmpData["nil1"] = nil
 	cmpData["nilp"] = ip
 	cmpGrid = append(cmpGrid, gval{Expr: "null", Kind: "null"}, gval{Expr: "nil1", Kind: "null"}, gval{Expr: "nilp", Kind: "null"}, gval{Expr: "missing", Kind: "null"})
+	// nulls that are the result of a host function: untyped nil, a typed nil pointer, a nil number
+	cmpData["hnil"] = func() (interface{}, error) { return nil, nil }
+	cmpData["hnp"] = func() (*int, error) { return nil, nil }
+	cmpData["hnd"] = func() (*decimal.Big, error) { return nil, nil }
+	cmpData["hni"] = func() (interface{}, error) { return (*decimal.Big)(nil), nil }
+	cmpData["nild"] = (*decimal.Big)(nil)
+	cmpGrid = append(cmpGrid, gval{Expr: "hnil()", Kind: "null"}, gval{Expr: "hnp()", Kind: "null"}, gval{Expr: "hnd()", Kind: "null"}, gval{Expr: "hni()", Kind: "null"}, gval{Expr: "nild", Kind: "null"}, gval{Expr: "this.nild", Kind: "null"})
 }
 
 func abs(x int) int {
@@ -200,6 +221,8 @@ func judgeCmp(c CmpCase) *eng.Fail {
 		wantSeq = true
 	case ka != kb:
 		wantSeq = false
+	case a.Kind != b.Kind:
+		wantSeq = false // a finite number and an infinity or NaN: same kind, never the same value
 	case a.Kind == "num" && b.Kind == "num":
 		wantSeq = a.Num.Cmp(b.Num) == 0
 	case ka == "str":
@@ -232,9 +255,71 @@ func judgeCmp(c CmpCase) *eng.Fail {
 	return nil
 }
 
+// TripleCase: an equality operator whose right operand is an unparenthesised relational expression:
+// the negation laws hold for the formula as the grammar groups it (equality binds looser).
+type TripleCase struct {
+	A, B, C string
+	Rel     string
+}
+
+var c05Triple *eng.Kind[TripleCase]
+
+func judgeTriple(c TripleCase) *eng.Fail {
+	rel := c.B + " " + c.Rel + " " + c.C
+	src := fmt.Sprintf("[%s === %s, %s !== %s, %s == %s, %s != %s, %s === (%s), %s !== (%s), %s == (%s), %s != (%s), %s === %s, %s !== %s]",
+		c.A, rel, c.A, rel, c.A, rel, c.A, rel, c.A, rel, c.A, rel, c.A, rel, c.A, rel, rel, c.A, rel, c.A)
+	o, perr := evalSrc(src, cmpData)
+	if perr != nil || o.panicked || o.err != nil {
+		return eng.F("C05/eval", "%s: %v %v %s", src, perr, o.err, o.panicMsg)
+	}
+	arr, _ := o.val.([]interface{})
+	if len(arr) != 10 {
+		return eng.F("C05/eval", "%s: %s", src, show(o.val))
+	}
+	var r [10]bool
+	for i, v := range arr {
+		b, ok := v.(bool)
+		if !ok {
+			return eng.F("C05/not-boolean", "%s: element %d is %s", src, i, show(v))
+		}
+		r[i] = b
+	}
+	outcome(fmt.Sprint("triple", r))
+	switch {
+	case r[0] == r[1]:
+		return eng.F("C05/sne-not-negation", "%s === %s is %v and %s !== %s is %v", c.A, rel, r[0], c.A, rel, r[1])
+	case r[2] == r[3]:
+		return eng.F("C05/ne-not-negation", "%s == %s is %v and %s != %s is %v", c.A, rel, r[2], c.A, rel, r[3])
+	case r[0] != r[4] || r[1] != r[5] || r[2] != r[6] || r[3] != r[7]:
+		return eng.F("C05/equality-groups-looser", "%s: with and without parentheses around the relational operand the results are %v and %v", src, r[:4], r[4:8])
+	case r[8] == r[9]:
+		return eng.F("C05/sne-not-negation", "%s === %s is %v and %s !== %s is %v", rel, c.A, r[8], rel, c.A, r[9])
+	}
+	return nil
+}
+
 func runC05(w *eng.W) {
 	W = w
 	buildCmpGrid()
+	tv := []string{"true", "false", "1", "0", "2", "'a'", "null", "(1 < 2)"}
+	for _, a := range tv {
+		if !w.Take() {
+			continue
+		}
+		for _, b := range tv {
+			for _, c := range tv {
+				for _, rel := range []string{"<", ">", "<=", ">="} {
+					w.State(1)
+					w.Trans(10)
+					w.Trace(1)
+					w.Note("leg:equality-over-relational", 1)
+					tc := TripleCase{a, b, c, rel}
+					w.Sample("equality-over-relational", tc)
+					c05Triple.Do(w, tc)
+				}
+			}
+		}
+	}
 	n := len(cmpGrid)
 	w.Text("grid", fmt.Sprintf("%d values, %d ordered pairs x 8 operators", n, n*n))
 	for i := 0; i < n; i++ {
